@@ -106,14 +106,97 @@ pub fn programs(tier: Tier) -> Vec<(Program, Mode)> {
     v
 }
 
+/// A peer removing or replacing an entry between two of our calls shows up, on a network filesystem,
+/// as ENOENT or ESTALE on the next call that names it.  For every call of every scenario that names a
+/// cache entry or probes for one, that answer is injected once: the operation must still not fail.
+fn absence_section(shard: Shard, rep: &mut Report) {
+    use crate::props::c02::fault_free;
+    use crate::props::c18::FailAt;
+    use crate::props::scn;
+    use crate::shim::{Action, Kind};
+    use std::sync::atomic::AtomicU64;
+    use std::sync::{Arc, Mutex};
+    let mut no = 0u64;
+    for scn in scn::all_scenarios() {
+        // (scenarios whose pre-state has debris are about temp files; the rest is what matters here)
+        if scn.debris() {
+            continue;
+        }
+        let (n, trace, _res) = fault_free(&scn);
+        for k in 0..n {
+            let e = &trace[k];
+            let names_entry = e.path.as_ref().map(|p| {
+                let name = std::path::Path::new(p).file_name().map(|n| n.to_string_lossy().into_owned()).unwrap_or_default();
+                (p.contains("/w/") || p.contains("/r0/")) && !p.contains("/.kismet_temp/") && !p.contains("/app_tmp/") && !name.starts_with('.') && !name.is_empty()
+            }).unwrap_or(false);
+            if !names_entry || !matches!(e.kind, Kind::Open | Kind::Stat | Kind::Unlink | Kind::Utimens | Kind::Link | Kind::Rename) {
+                continue;
+            }
+            // the destination of a link/rename reported absent makes no sense for a successful call; only
+            // failures that a vanished *entry* can cause
+            if matches!(e.kind, Kind::Link | Kind::Rename) {
+                continue;
+            }
+            for errno in [libc::ENOENT, libc::ESTALE] {
+                no += 1;
+                if !shard.mine(no) {
+                    continue;
+                }
+                let w = scn::setup(&scn);
+                let cache = w.cache();
+                let force = w.force_maintenance;
+                let ctl = Arc::new(FailAt { faults: vec![(k as u64, Action::Fail(errno))], kinds: vec![Some(e.kind)], n: AtomicU64::new(0), hit: Mutex::new(vec![]) });
+                crate::shim::set_controller(Some(ctl.clone()));
+                let (r, t) = crate::run::as_participant(0, 0, || {
+                    if force {
+                        crate::run::trigger_fire_next(u64::MAX);
+                    } else {
+                        crate::run::trigger_never();
+                    }
+                    crate::ops::exec(&cache, &w.dirs, &w.op, &Default::default())
+                });
+                crate::shim::set_controller(None);
+                rep.evaluations += 1;
+                rep.states += 1;
+                rep.traces += 1;
+                rep.transitions += t.len() as u64;
+                rep.count("absence_answer_cases", 1);
+                if ctl.hit.lock().unwrap().is_empty() {
+                    continue;
+                }
+                let res = match r {
+                    Ok(o) => o.res,
+                    Err(p) => Res::Panic(p),
+                };
+                if res.is_err() || res.is_panic() {
+                    rep.violation(
+                        "concurrency:absence-not-benign",
+                        format!(
+                            "{}: call {} ({} {}) answered errno {} (what a concurrent removal looks like): the operation returned {}",
+                            scn.to_json(),
+                            k,
+                            e.func,
+                            e.path.as_deref().unwrap_or("").rsplit('/').next().unwrap_or(""),
+                            errno,
+                            res.label()
+                        ),
+                        serde_json::json!({"absence": true, "scenario": scn.to_json(), "call": k, "errno": errno}),
+                    );
+                }
+            }
+        }
+    }
+}
+
 pub fn run(tier: Tier, shard: Shard, rep: &mut Report) {
     rep.rule = "programs of 2-3 participants where every write maintains (capacity 1-2 per directory, trigger always firing) over \
         directories crowded with entries of different ages and read marks (so maintenance both unlinks and re-queues), plus an adversary \
         whose operations are unlink(<published cache file>) schedulable at any call boundary, plus programs starting with no cache \
         directory at all (create_dir_all races with rename/link); plain, sharded (shard directories initially missing) and stacked \
         front-ends; every interleaving with <= 2 preemptions (thorough: bound 3, 3 participants, unbounded for one pair). Oracle: every \
-        operation returns Ok (a lost race shows as a miss / false / a completed write), no panic, no deadlock. Non-trivial = execution \
-        with >= 1 preemption."
+        operation returns Ok (a lost race shows as a miss / false / a completed write), no panic, no deadlock. Plus, single-participant: every call of every C02 scenario that names a cache entry \
+        answered ENOENT and ESTALE in turn (what a concurrent removal looks like on a network filesystem): the operation must not fail. \
+        Non-trivial = execution with >= 1 preemption."
         .into();
     rep.assumptions = vec![
         "the adversary deletes published entries only (never temp files or directories); callers pass valid names and same-filesystem sources".into(),
@@ -122,9 +205,15 @@ pub fn run(tier: Tier, shard: Shard, rep: &mut Report) {
     let cap = if tier == Tier::Quick { 300_000 } else { 30_000_000 };
     let mut chk = |_pi: usize, x: &Execution| check(x);
     e1::explore_all("C05", &progs, shard, rep, &|_| RunOpts::default(), &mut chk, cap);
+    crate::run::reset_env();
+    absence_section(shard, rep);
 }
 
 pub fn replay(case: &Value, rep: &mut Report) {
+    if case.get("absence").is_some() {
+        absence_section(Shard { index: 0, count: 1 }, rep);
+        return;
+    }
     crate::sched::install_hooks();
     let progs: Vec<Program> = programs(Tier::Thorough).into_iter().map(|p| p.0).collect();
     let mut chk = |x: &Execution| check(x);
